@@ -64,6 +64,10 @@ func (p *Pool[K, V]) Close() (err error) {
 	var eg errs.Group
 	for ent := p.order.head; ent != nil; ent = ent.global.next {
 		eg.Add(p.closeEntry(ent))
+
+		// the lists are dropped wholesale below, so mark the entry as no
+		// longer a member for any expiration callback that is still running.
+		ent.local.linked, ent.global.linked = false, false
 	}
 
 	p.entries = make(map[K]*list[K, V])
